@@ -76,6 +76,11 @@ def handlers : List (String × Handler) := [
         | .error => "error"
       | _, _, _ => "err args"
     | _ => "err args"),
+  ("names.tdfunc", fun
+    | [.list ps] => match ps.mapM pair? with
+      | some ps => "ok " ++ b2s (tdFunctional ps)
+      | none => "err args"
+    | _ => "err args"),
   ("names.c2s", fun
     | [s] => match s.str? with
       | some s => "ok " ++ encodeStr (camelToSnake pyEnv s)
